@@ -4,7 +4,9 @@ from hypothesis import strategies as st
 from vlib import gen
 from vlib.agp import Run, best_of, replay_history, swallowed_exception_is_float_resolution
 from vlib.objectives import ObjectiveFailure
-from vlib.runner import fail, hyp_run
+import math
+
+from vlib.runner import fail, hyp_run, Violation
 from vlib.searchinv import check_search_data, check_reported_best
 
 LEVEL = "fault_enumeration"
@@ -59,7 +61,7 @@ def cases(draw):
     return {"recipe": recipe, "params": params}
 
 
-def fault_run(case, k, excname, clean, form=0):
+def fault_run(case, k, excname, clean, form=0, acc=None, resume=False):
     run = Run(case["recipe"], case["params"])
     run.problem.fail_at = k
     run.problem.fail_exc = EXC[excname]
@@ -92,6 +94,54 @@ def fault_run(case, k, excname, clean, form=0):
     res = run.results()
     if best_of(res) != (pt, val):
         fail(who + "GetResults() differs from the Solution returned by Solve")
+    # the result reflects exactly the k-1 completed trials - the accuracy too: the smallest Hoelder length of an
+    # interval that was subdivided by one of them (acc[j]: that minimum over the first j trials of the clean run)
+    if acc is not None:
+        want = acc[k - 1]
+        rep = float(sol.solutionAccuracy)
+        if not (rep == want or (math.isfinite(want) and abs(rep - want) <= 4 * math.ulp(want))):
+            fail(who + "reported accuracy %r, but the smallest interval subdivided by the %d completed trials has "
+                 "Hoelder length %r" % (rep, k - 1, want))
+    if resume:
+        # the fault was transient: the same solver goes on, and every trial of the continued search is placed by the
+        # decision rule from all completed trials (the interval chosen for the failed trial must not be lost)
+        run.solve()
+        if run.problem.calls <= k:
+            return
+        try:
+            replay_history(run.n, case["params"]["r"], run.history(), check_rule=True)
+        except Violation as v:
+            fail(who + "search continued by a second Solve: " + str(v))
+
+
+def refine_fault_run(case, k, excname, nglobal, ntotal):
+    """refineSolution=True: the objective fails at evaluation k, in the global phase or during the local refinement.
+    Solve returns; the global trial count is the number of completed global trials; the reported value is the
+    objective at the reported point, which is one of the points that were evaluated."""
+    run = Run(case["recipe"], case["params"], refine=True)
+    run.problem.fail_at = k
+    run.problem.fail_exc = EXC[excname]
+    try:
+        sol = run.solve()
+    except BaseException as e:
+        fail("refineSolution=True: %s raised by the objective at evaluation %d (%s phase; a clean run makes %d global "
+             "and %d local evaluations) escaped from Solve (as %s: %s)" %
+             (excname, k, "global" if k <= nglobal else "local refinement", nglobal, ntotal - nglobal,
+              type(e).__name__, str(e)[:100]))
+    who = "refineSolution=True, objective raising %s at evaluation %d: " % (excname, k)
+    want_global = min(k - 1, nglobal)
+    if sol.numberOfGlobalTrials != want_global:
+        fail(who + "numberOfGlobalTrials=%r, expected %d" % (sol.numberOfGlobalTrials, want_global))
+    pt, val = best_of(sol)
+    log = run.problem.log
+    if not any(y == pt for _, y, _ in log):
+        fail(who + "reported best point %r is not one of the %d evaluated points" % (pt, len(log)))
+    if run.problem.value_at(pt) != val:
+        fail(who + "reported best value %r differs from the objective %r at the reported point" %
+             (val, run.problem.value_at(pt)))
+    gbest = min(v for _, _, v in log[:want_global])
+    if val > gbest:
+        fail(who + "reported best value %r is worse than the best completed global trial %r" % (val, gbest))
 
 
 def body(case):
@@ -108,14 +158,28 @@ def body(case):
     model, info = replay_history(clean_run.n, case["params"]["r"], hist, check_rule=False)
     interesting = 0
     runs = 0
+    # acc[j]: smallest Hoelder length of an interval subdivided by the first j trials (inf for j <= 1)
+    acc = [math.inf, math.inf]
+    for rec in info[1:]:
+        acc.append(min(acc[-1], rec["D"]))
     for k in range(2, n + 1):
         prev = info[k - 2]           # trial k-1
         hot = prev["improved"] or prev["grew"]
         for idx, name in enumerate(EXC):
-            fault_run(case, k, name, clean, (k + idx) % len(FORMS))
+            fault_run(case, k, name, clean, (k + idx) % len(FORMS), acc=acc, resume=((k + idx) % 4 == 0))
             runs += 1
             if hot:
                 interesting += 1
+    # the same with refineSolution=True for a few fault positions, the local phase included
+    if n <= 40:
+        rclean = Run(case["recipe"], case["params"], refine=True)
+        rclean.solve()
+        if "Exception was thrown" not in rclean.stdout():
+            ntotal = len(rclean.problem.log)
+            ks = sorted(set([2, max(2, n // 2), n, n + 1, (n + ntotal) // 2, ntotal]))
+            for j, k in enumerate(k for k in ks if 2 <= k <= ntotal):
+                refine_fault_run(case, k, list(EXC)[(j + n) % len(EXC)], n, ntotal)
+                runs += 1
     body.counted += runs
     body.hot += interesting
     classes = ["N=%d" % clean_run.n, "clean-trials=%s" % ("<10" if n < 10 else ("<40" if n < 40 else ">=40"))]
